@@ -76,7 +76,7 @@ SEED_PHASES = [
     (9, math.sqrt(7.0) / 3.0),
 ]
 
-SHAPES_QUICK = [1, 2, 3, 4, 5, 6, 7, 11]
+SHAPES_QUICK = [1, 2, 3, 4, 5, 6, 7, 11, 65]
 SHAPES_THOROUGH = [1, 2, 3, 4, 5, 6, 7, 11, 65]
 OPTIONAL = [(), ("ffprime",), ("pprime",), ("ffprime", "pprime")]
 COUNTS = [None, 0, 1, 2, 5, 6]  # None: keys absent from the data set
@@ -519,8 +519,15 @@ def check_geq_case(case):
         text = hwrite(d, None, None, None)
     else:
         text = ref.write_strict(d, "REFERENCE WRITER")
-    # the file's content, independently parsed: this is what must be mapped
-    f = ref.read_strict(text, nx, ny)
+    # the file's content (d to ten significant digits): this is what must be mapped
+    f = {}
+    for k_, x_ in d.items():
+        if k_ in ("nx", "ny"):
+            continue
+        a_ = np.asarray(x_, dtype=float)
+        f[k_] = np.array([ref.rounded10(float(t))[0] for t in a_.ravel()]).reshape(a_.shape)
+        if a_.ndim == 0:
+            f[k_] = float(f[k_])
     try:
         with contextlib.redirect_stdout(io.StringIO()):
             res = tokamak.read_geqdsk(io.StringIO(text), make_regions=False)
@@ -683,10 +690,14 @@ def probe_observations(ctx):
         ctx.notes.append("writer emits ' -0.000000000E+00' (17 characters) for -0.0: the record is "
                          "no longer 5e16.9; hypnotoad's own reader still returns -0.0, so the "
                          "round trip of the property holds (outside the statement)")
-    got = hread(text)
-    if not (got["fpol"][0] == 0.0):
-        ctx.violation("round trip | negative zero", dict(got=float(got["fpol"][0])),
-                      replay=dict(negzero=True))
+    try:
+        got = hread(text)
+        if not (got["fpol"][0] == 0.0 and got["fpol"][1] == 1.0 and got["fpol"][2] == -1.0):
+            ctx.violation("round trip | negative zero", dict(got=got["fpol"].tolist()),
+                          replay=dict(negzero=True))
+    except Exception as e:  # noqa: BLE001
+        ctx.violation("round trip | negative zero | read raises %s" % type(e).__name__,
+                      dict(error=str(e)[:300]), replay=dict(negzero=True))
 
 
 def run(ctx):
